@@ -174,3 +174,51 @@ fn c08_k_month_next() {
   assert!(r.get_sixty_cycle().get_index() as i64 == spec::emod(mp as i64 + n as i64, 60), "the month pillar moves by n");
   kani::cover!(n == -1 && idx == 0, "month_next reachable (backward across Lichun)");
 }
+
+// ---- C17: flying nine stars of year and month, hour twelve spirits (index arithmetic; cheap constructors) ---------------
+#[kani::proof]
+#[kani::unwind(61)]
+#[kani::stub(alloc::fmt::format, stub_format)]
+#[kani::stub(SixtyCycle::from_index, faithful_cycle_from_index)]
+fn c17_k_year_nine_star() {
+  let y: isize = kani::any();
+  kani::assume(y >= -1 && y <= 9999);
+  // 1864 (first year of an Upper Era, Jiazi) is One White; the star descends by one per year
+  let want = spec::emod(0 - (y as i64 - 1864), 9);
+  assert!(SixtyCycleYear { year: y }.get_nine_star().get_index() as i64 == want, "year star descends one per year from 1864 = One White");
+  assert!(LunarYear::from_year(y).get_nine_star().get_index() as i64 == want, "the lunar-year view agrees");
+  kani::cover!(y == -1, "year_nine_star reachable");
+}
+
+#[kani::proof]
+#[kani::unwind(61)]
+#[kani::stub(alloc::fmt::format, stub_format)]
+#[kani::stub(SixtyCycle::from_index, faithful_cycle_from_index)]
+#[kani::stub(EarthBranch::from_index, faithful_branch_from_index)]
+fn c17_k_month_nine_star() {
+  let y: isize = kani::any(); let mp: isize = kani::any();
+  kani::assume(y >= -1 && y <= 9999 && mp >= 0 && mp < 60);
+  let m = SixtyCycleMonth { year: SixtyCycleYear { year: y }, month: cheap_cycle(mp) };
+  let yb = spec::emod(y as i64 - 4, 60) % 12;
+  // years of 子午卯酉 start the Yin month at Eight White, 辰戌丑未 at Five Yellow, 寅申巳亥 at Two Black; descending per month
+  let first = match yb % 3 { 0 => 7, 1 => 4, _ => 1 };
+  let idx = spec::emod(mp as i64 % 12 - 2, 12);
+  assert!(m.get_nine_star().get_index() as i64 == spec::emod(first - idx, 9), "month star by year-branch group, descending from the Yin month");
+  kani::cover!(idx == 11 && yb == 2, "month_nine_star reachable");
+}
+
+#[kani::proof]
+#[kani::unwind(61)]
+#[kani::stub(alloc::fmt::format, stub_format)]
+#[kani::stub(EarthBranch::from_index, faithful_branch_from_index)]
+fn c17_k_hour_twelve_star() {
+  let dp: isize = kani::any(); let hp: isize = kani::any();
+  kani::assume(dp >= 0 && dp < 60 && hp >= 0 && hp < 60);
+  let sd = SolarDay::from_ymd(2000, 1, 1);
+  let h = SixtyCycleHour { solar_time: SolarTime::from_ymd_hms(2000, 1, 1, 0, 0, 0),
+    day: SixtyCycleDay { solar_day: sd, month: SixtyCycleMonth { year: SixtyCycleYear { year: 2000 }, month: cheap_cycle(0) }, day: cheap_cycle(dp) }, hour: cheap_cycle(hp) };
+  let (db, hb) = (dp as i64 % 12, hp as i64 % 12);
+  let start = match db { 2 | 8 => 0, 3 | 9 => 2, 4 | 10 => 4, 5 | 11 => 6, 0 | 6 => 8, _ => 10 };
+  assert!(h.get_twelve_star().get_index() as i64 == spec::emod(hb - start, 12), "hour spirits start at the branch fixed by the DAY branch and advance with the hour branch");
+  kani::cover!(db == 1 && hb == 11, "hour_twelve_star reachable");
+}
